@@ -36,15 +36,15 @@ type Run struct {
 }
 
 type Finding struct {
-	ID       string          `json:"id"`
-	Property string          `json:"property"`
-	Status   string          `json:"status"` // known | fixed
-	Key      string          `json:"key"`
-	What     string          `json:"what"`
-	Commit   string          `json:"commit,omitempty"`
-	Avoid    []string        `json:"avoid,omitempty"`
-	Witness  *Case           `json:"witness,omitempty"`
-	Note     string          `json:"note,omitempty"`
+	ID       string   `json:"id"`
+	Property string   `json:"property"`
+	Status   string   `json:"status"` // known | fixed
+	Key      string   `json:"key"`
+	What     string   `json:"what"`
+	Commit   string   `json:"commit,omitempty"`
+	Avoid    []string `json:"avoid,omitempty"`
+	Witness  *Case    `json:"witness,omitempty"`
+	Note     string   `json:"note,omitempty"`
 }
 
 func loadFindings(root string) []Finding {
@@ -638,17 +638,17 @@ func (run *Run) finish() int {
 	}
 
 	cov := map[string]interface{}{
-		"evaluations":         evaluations,
-		"distinct_nontrivial": len(distinct),
-		"rule":                p.Rule,
-		"samples":             samples,
-		"exhaustive":          p.Exhaustive,
-		"counters":            counters,
-		"inconclusive":        inconclusive,
-		"flaky":               run.Flaky,
-		"cases_without_result": missing,
-		"crash_sites":         run.Crashes,
-		"race_report_keys":    run.RaceKeys,
+		"evaluations":             evaluations,
+		"distinct_nontrivial":     len(distinct),
+		"rule":                    p.Rule,
+		"samples":                 samples,
+		"exhaustive":              p.Exhaustive,
+		"counters":                counters,
+		"inconclusive":            inconclusive,
+		"flaky":                   run.Flaky,
+		"cases_without_result":    missing,
+		"crash_sites":             run.Crashes,
+		"race_report_keys":        run.RaceKeys,
 		"unlisted_violation_keys": printed,
 	}
 	setSizes := map[string]int{}
